@@ -1,5 +1,5 @@
 import html
-from collections import defaultdict
+from collections import defaultdict, namedtuple
 from functools import cached_property
 
 from arsenal import Integerizer
@@ -10,6 +10,9 @@ from genlm.grammar.linear import WeightedGraph
 
 # EPSILON = "ε"
 EPSILON = ""
+
+# wrapper used by `to_cfg` to keep state names apart from terminal symbols
+State = namedtuple("State", "q")
 
 
 class WFSA:
@@ -492,6 +495,13 @@ class WFSA:
         if S is None:
             S = _gen_nt()
         cfg = CFG(R=self.R, V=self.alphabet - {EPSILON}, S=S)
+
+        # States become nonterminals.  A state whose name coincides with an
+        # alphabet symbol (e.g. the prefix-named states of `from_string`) or
+        # with the start symbol would be confused with it; rename those apart.
+        clash = {q for q in self.states if q in cfg.V or q == S}
+        if clash:
+            self = self.rename(lambda q: State(q) if q in clash else q)
 
         if recursion == "right":
             # add production rule for initial states
